@@ -355,4 +355,415 @@ theorem isectSS_spec (a : Blk) (sa : Strand) (b : Blk) (sb : Strand) (ms fs : Bo
           simp only [locationBlocks, normalBlocks, nonOverlap, decide_eq_true_eq, and_true]
           simp only [isectBlk]; omega }
 
+/-- `CompoundInterval.from_single_intervals(blocks).optimize_blocks()` on non-empty blocks -/
+theorem build_spec (bs : List Blk) (st : Strand) (hne : bs ≠ []) (hpos : ∀ u ∈ bs, u.1 < u.2) :
+    ∃ r, (mkCompoundLoc bs st >>= fun c => optimizeLoc true c) = .ok r ∧
+      wfLocation r = true ∧ (r = .empty ∨ locationStrand? r = some st) ∧
+      (∀ b ∈ locationBlocks r, b.1 < b.2) ∧
+      (∀ q, coversBlocks (locationBlocks r) q = coversBlocks bs q) ∧
+      (bs.Pairwise (fun a b => a.2 ≤ b.1) →
+        normalBlocks (locationBlocks r) = true ∧ nonOverlap (locationBlocks r) = true) := by
+  have hv : ∀ u ∈ bs, u.1 ≤ u.2 := fun u hu => Nat.le_of_lt (hpos u hu)
+  obtain ⟨r, hr, hs⟩ := optimizeLoc_spec true (sortBlocks st bs) st (canon_sortBlocks st hne hv)
+  refine ⟨r, ?_, hs.wf, hs.strand, hs.pos, ?_, ?_⟩
+  · rw [mkCompoundLoc_ok st hne hv]
+    exact hr
+  · intro q; rw [hs.cov q, coversBlocks_sort]
+  · intro hp
+    apply hs.normal rfl
+    rw [sort_id st bs hp hpos]
+    exact nonOverlap_of_pairwise bs hp
+
+theorem ne_nil_of_covers {bs : List Blk} {p : Nat} (h : coversBlocks bs p = true) : bs ≠ [] := by
+  intro he; rw [he] at h; cases h
+
+theorem fullSpan_valid (l : Loc) (h : l.Canon) :
+    ∃ F, fullSpan l = .ok F ∧ F.1 ≤ F.2 ∧ spanOf (.compound l) = some F := by
+  obtain ⟨f, rest, hbl, hspan, hfull⟩ := spanOf_compound l h
+  refine ⟨_, hfull, ?_, hspan⟩
+  have hf : f.1 ≤ f.2 := (blocksValid_iff _).mp h.2.1 f (by simp [hbl])
+  have := le_maxEndOf_of_mem l.blocks f (by simp [hbl])
+  rw [maxEndOf_eq_maxEnd] at this
+  simp only
+  omega
+
+theorem isectCS_spec (la : Loc) (b : Blk) (sb : Strand) (ms fs : Bool) (hla : la.Canon) (hb : b.1 ≤ b.2) :
+    ∃ r, isectCS la b sb ms fs = .ok r ∧ ISpec (.compound la) (.single b sb) ms fs r := by
+  unfold isectCS
+  rw [hasOverlap_spec (.compound la) (.single b sb) hla hb ms fs (by simp)]
+  simp only [bind, Except.bind]
+  change ∃ r, (if (!ovVal (.compound la) (.single b sb) ms fs) = true then _ else _) = _ ∧ _
+  cases hv : ovVal (.compound la) (.single b sb) ms fs with
+  | false =>
+    exact ⟨.empty, by simp; rfl, ISpec.ofEmpty (ovVal_false hv)⟩
+  | true =>
+    simp only [Bool.not_true, Bool.false_eq_true, if_false]
+    obtain ⟨hg, p, hp1, hp2⟩ := ovVal_true hv
+    cases fs with
+    | true =>
+      obtain ⟨F, hF, hFv, hspan⟩ := fullSpan_valid la hla
+      simp only [if_true, hF]
+      obtain ⟨r, hr, hs⟩ := isectSS_spec F la.strand b sb ms true
+      refine ⟨r, hr, hs.congr_left rfl ?_ (Or.inl rfl)⟩
+      intro q
+      rw [covX_single, covX_compound_true la F hspan]
+    | false =>
+      simp only [Bool.false_eq_true, if_false]
+      rw [colI_eq]
+      rw [covX_compound_false] at hp1
+      rw [covX_single] at hp2
+      have hcov : ∀ q, coversBlocks (rowI b la.blocks) q =
+          (strandGate (.compound la) (.single b sb) ms && covX false (.compound la) q && covX false (.single b sb) q) := by
+        intro q
+        rw [covers_rowI, hg, covX_compound_false, covX_single, Bool.true_and, Bool.and_comm]
+      have hne : rowI b la.blocks ≠ [] := ne_nil_of_covers (p := p) (by rw [covers_rowI, hp1, hp2]; rfl)
+      obtain ⟨r, hr, hwf, hst, hpos, hc, hn⟩ := build_spec (rowI b la.blocks) la.strand hne
+        (fun u hu => (rowI_bounds hu).1)
+      refine ⟨r, hr, ?_⟩
+      exact {
+        wf := hwf
+        strand := hst
+        pos := hpos
+        cov := fun q => by rw [hc q, hcov q]
+        normal := by
+          intro hh
+          rcases hh with hh | hh
+          · cases hh
+          · apply hn
+            apply rowI_pairwise
+            exact nonOverlap_pairwise la.blocks ((blocksValid_iff _).mp hla.2.1) hh.1 }
+
+theorem locStrand_ok (r : Location) (h : r ≠ .empty) : ∃ s, locStrand r = .ok s ∧ locationStrand? r = some s := by
+  cases r with
+  | single b s => exact ⟨s, rfl, rfl⟩
+  | compound l => exact ⟨l.strand, rfl, rfl⟩
+  | empty => exact absurd rfl h
+
+theorem resetStrand_spec (r : Location) (ns : Strand) (hwf : wfLocation r = true) (hne : r ≠ .empty) :
+    ∃ r', resetStrand r ns = .ok r' ∧ wfLocation r' = true ∧ locationStrand? r' = some ns ∧
+      locationBlocks r' = sortBlocks ns (locationBlocks r) := by
+  cases r with
+  | single b s =>
+    refine ⟨.single b ns, rfl, ?_, rfl, ?_⟩
+    · simpa [wfLocation] using hwf
+    · simp [locationBlocks, sortBlocks]
+  | compound l =>
+    have hc : l.Canon := by simpa [wfLocation] using hwf
+    have hv := (blocksValid_iff _).mp hc.2.1
+    refine ⟨.compound ⟨sortBlocks ns l.blocks, ns⟩, ?_, ?_, rfl, rfl⟩
+    · simp only [resetStrand, mkCompound, mkCompoundLoc_ok ns hc.1 hv]
+      rfl
+    · simpa [wfLocation] using canon_sortBlocks ns hc.1 hv
+  | empty => exact absurd rfl hne
+
+theorem isectSC_spec (a : Blk) (sa : Strand) (lb : Loc) (ms fs : Bool) (ha : a.1 ≤ a.2) (hlb : lb.Canon) :
+    ∃ r, isectSC a sa lb ms fs = .ok r ∧ ISpec (.single a sa) (.compound lb) ms fs r := by
+  unfold isectSC
+  rw [hasOverlap_spec (.single a sa) (.compound lb) ha hlb ms fs (by simp)]
+  simp only [bind, Except.bind]
+  change ∃ r, (if (!ovVal (.single a sa) (.compound lb) ms fs) = true then _ else _) = _ ∧ _
+  cases hv : ovVal (.single a sa) (.compound lb) ms fs with
+  | false =>
+    exact ⟨.empty, by simp; rfl, ISpec.ofEmpty (ovVal_false hv)⟩
+  | true =>
+    simp only [Bool.not_true, Bool.false_eq_true, if_false]
+    obtain ⟨r', hr', hs'⟩ := isectCS_spec lb a sa ms fs hlb ha
+    have hne : r' ≠ .empty := hs'.ne_empty (by rw [ovVal_comm]; exact hv)
+    obtain ⟨s, hls, hs⟩ := locStrand_ok r' hne
+    rw [hr']
+    simp only [hls]
+    by_cases hsa : s = sa
+    · subst hsa
+      refine ⟨r', by simp; rfl, hs'.swap_reset hs'.wf (Or.inr hs) (List.Perm.refl _) (fun _ => rfl)⟩
+    · obtain ⟨r, hr, hwf, hst, hbl⟩ := resetStrand_spec r' sa hs'.wf hne
+      refine ⟨r, by simp [hsa, hr], hs'.swap_reset hwf (Or.inr hst) ?_ ?_⟩
+      · rw [hbl]; exact sortBlocks_perm _ _
+      · intro hno
+        rw [hbl]
+        exact sort_id sa _ (nonOverlap_pairwise _ (fun u hu => Nat.le_of_lt (hs'.pos u hu)) hno) hs'.pos
+
+theorem strandGate_cc (la lb : Loc) (ms : Bool) :
+    strandGate (.compound la) (.compound lb) ms = (!ms || la.strand == lb.strand) := rfl
+
+theorem isectCC_spec (la lb : Loc) (ms fs : Bool) (hla : la.Canon) (hlb : lb.Canon) :
+    ∃ r, isectCC la lb ms fs = .ok r ∧ ISpec (.compound la) (.compound lb) ms fs r := by
+  unfold isectCC
+  rw [hasOverlap_spec (.compound la) (.compound lb) hla hlb ms fs (by simp)]
+  simp only [bind, Except.bind]
+  change ∃ r, (if (!ovVal (.compound la) (.compound lb) ms fs) = true then _ else _) = _ ∧ _
+  cases hv : ovVal (.compound la) (.compound lb) ms fs with
+  | false =>
+    exact ⟨.empty, by simp; rfl, ISpec.ofEmpty (ovVal_false hv)⟩
+  | true =>
+    simp only [Bool.not_true, Bool.false_eq_true, if_false]
+    obtain ⟨hg, p, hp1, hp2⟩ := ovVal_true hv
+    cases fs with
+    | true =>
+      obtain ⟨F, hF, hFv, hspan⟩ := fullSpan_valid la hla
+      simp only [if_true, hF]
+      obtain ⟨r, hr, hs⟩ := isectSC_spec F la.strand lb ms true hFv hlb
+      refine ⟨r, hr, hs.congr_left rfl ?_ (Or.inl rfl)⟩
+      intro q
+      rw [covX_single, covX_compound_true la F hspan]
+    | false =>
+      simp only [Bool.false_eq_true, if_false]
+      have hms : ¬ (ms = true ∧ la.strand ≠ lb.strand) := by
+        rw [strandGate_cc, strand_beq] at hg
+        rintro ⟨h1, h2⟩
+        simp [h1, h2] at hg
+      simp only [hms, if_false, guarded_row_eq]
+      change ∃ r, (mkCompoundLoc (gridI la.blocks lb.blocks) la.strand >>= fun c => optimizeLoc true c) = _ ∧ _
+      rw [covX_compound_false] at hp1 hp2
+      have hcov : ∀ q, coversBlocks (gridI la.blocks lb.blocks) q =
+          (strandGate (.compound la) (.compound lb) ms && covX false (.compound la) q &&
+            covX false (.compound lb) q) := by
+        intro q
+        rw [covers_gridI, hg, covX_compound_false, covX_compound_false, Bool.true_and]
+      have hne : gridI la.blocks lb.blocks ≠ [] :=
+        ne_nil_of_covers (p := p) (by rw [covers_gridI, hp1, hp2]; rfl)
+      obtain ⟨r, hr, hwf, hst, hpos, hc, hn⟩ := build_spec (gridI la.blocks lb.blocks) la.strand hne
+        (fun u hu => gridI_pos hu)
+      refine ⟨r, hr, ?_⟩
+      exact {
+        wf := hwf
+        strand := hst
+        pos := hpos
+        cov := fun q => by rw [hc q, hcov q]
+        normal := by
+          intro hh
+          rcases hh with hh | hh
+          · cases hh
+          · apply hn
+            apply gridI_pairwise
+            · exact nonOverlap_pairwise la.blocks ((blocksValid_iff _).mp hla.2.1) hh.1
+            · exact nonOverlap_pairwise lb.blocks ((blocksValid_iff _).mp hlb.2.1) hh.2 }
+
+/-! ### the dispatch -/
+
+theorem ovVal_empty_right (x : Location) (ms fs : Bool) : ovVal x .empty ms fs = false := by
+  rw [Bool.eq_false_iff]
+  intro h
+  obtain ⟨_, p, _, h2⟩ := ovVal_true h
+  simp [covX_empty] at h2
+
+/-- closed form of the parent-less `intersection`, outside the F-C02c corner -/
+theorem intersection_spec (x y : Location) (hx : WF x) (hy : WF y) (ms fs : Bool)
+    (hq : ¬ (x ≠ .empty ∧ y = .empty ∧ ms = true)) :
+    ∃ r, intersection x y ms fs = .ok r ∧ ISpec x y ms fs r := by
+  match x, y, hx, hy, hq with
+  | .empty, y, _, _, _ =>
+    exact ⟨.empty, by cases y <;> rfl, ISpec.ofEmpty (by intro p; simp [covX_empty])⟩
+  | .single a sa, .single b sb, _, _, _ => exact isectSS_spec a sa b sb ms fs
+  | .single a sa, .compound lb, hx, hy, _ => exact isectSC_spec a sa lb ms fs hx hy
+  | .compound la, .single b sb, hx, hy, _ => exact isectCS_spec la b sb ms fs hx hy
+  | .compound la, .compound lb, hx, hy, _ => exact isectCC_spec la lb ms fs hx hy
+  | .single a sa, .empty, hx, hy, hq =>
+    refine ⟨.empty, ?_, ISpec.ofEmpty (ovVal_false (ovVal_empty_right _ ms fs))⟩
+    unfold intersection
+    rw [hasOverlap_spec _ _ hx hy ms fs hq]
+    simp only [bind, Except.bind]
+    change (if (!ovVal (.single a sa) .empty ms fs) = true then _ else _) = _
+    rw [ovVal_empty_right]
+    rfl
+  | .compound la, .empty, hx, hy, hq =>
+    refine ⟨.empty, ?_, ISpec.ofEmpty (ovVal_false (ovVal_empty_right _ ms fs))⟩
+    unfold intersection
+    rw [hasOverlap_spec _ _ hx hy ms fs hq]
+    simp only [bind, Except.bind]
+    change (if (!ovVal (.compound la) .empty ms fs) = true then _ else _) = _
+    rw [ovVal_empty_right]
+    rfl
+
+/-- with an `EmptyLocation` argument the call raises or returns `EmptyLocation` -/
+theorem intersection_empty_arg (x : Location) (ms fs : Bool) (r : Location)
+    (h : intersection x .empty ms fs = .ok r) : r = .empty := by
+  cases x with
+  | empty => simp only [intersection, pure, Except.pure] at h; cases h; rfl
+  | single a sa =>
+    simp only [intersection, bind, Except.bind] at h
+    cases hv : hasOverlap (.single a sa) .empty ms fs with
+    | error e => rw [hv] at h; cases h
+    | ok v =>
+      rw [hv] at h
+      cases v <;> simp [pure, Except.pure, throw, throwThe, MonadExceptOf.throw] at h
+      exact h.symm
+  | compound la =>
+    simp only [intersection, bind, Except.bind] at h
+    cases hv : hasOverlap (.compound la) .empty ms fs with
+    | error e => rw [hv] at h; cases h
+    | ok v =>
+      rw [hv] at h
+      cases v <;> simp [pure, Except.pure, throw, throwThe, MonadExceptOf.throw] at h
+      exact h.symm
+
+/-! ### with parents -/
+
+theorem withPar_fst' (r : Location) (par : PKey) : (withPar r par).fst = r := withPar_fst r par
+
+theorem intersectionP_false_eq (a b : PLoc) (ms fs : Bool) :
+    intersectionP a b ms fs false =
+      if a.1 = .empty ∨ sameParent a.2 b.2 = false then .ok (.empty, [])
+      else (intersection a.1 b.1 ms fs >>= fun r => pure (withPar r (isectResultParent a b fs))) := by
+  unfold intersectionP
+  rw [parentGate_eq]
+  cases h : a.1 <;> cases hsp : sameParent a.2 b.2 <;> simp <;> rfl
+
+theorem intersectionP_strict_eq (a b : PLoc) (ms fs : Bool) (hsp : sameParent a.2 b.2 = true) :
+    intersectionP a b ms fs true = intersectionP a b ms fs false := by
+  simp [intersectionP, requireParentsEq_eq, hsp]
+  rfl
+
+theorem okI_some (a b : LocP) (ms fs strict : Bool) (r : LocP) (h : (strict && !sameParent a.2 b.2) = false)
+    (h1 : resultOk r a.2 = true) (h2 : endsWithin r.1 (hiOf [a.1, b.1]) = true)
+    (h3 : ∀ p, locationCovers r.1 p = (active a b ms && covX fs a.1 p && covX fs b.1 p))
+    (h4 : strandIs r.1 (locationStrand? a.1) = true) (h5 : noEmptyBlock r.1 = true) :
+    okIntersection a b ms fs strict (some r) = true := by
+  unfold okIntersection
+  simp only [h, Bool.false_eq_true, if_false, h1, h2, h4, h5, Bool.true_and, Bool.and_true]
+  rw [allUpTo_iff]
+  intro p _
+  rw [h3 p]
+  simp
+
+theorem okI_empty (a b : LocP) (ms fs strict : Bool) (h : (strict && !sameParent a.2 b.2) = false)
+    (h3 : ∀ p, (active a b ms && covX fs a.1 p && covX fs b.1 p) = false) :
+    okIntersection a b ms fs strict (some (.empty, [])) = true := by
+  apply okI_some a b ms fs strict _ h
+  · simp [resultOk, wfLocation, parLen]
+  · rfl
+  · intro p; rw [h3 p]; rfl
+  · rfl
+  · rfl
+
+theorem intersectionP_ok_aux (a b : PLoc) (ha : WFP a) (hb : WFP b) (ms fs strict : Bool)
+    (hq : ¬ EmptyArgQuirk a b ms) (h : (strict && !sameParent a.2 b.2) = false) :
+    okIntersection a b ms fs strict (ans (intersectionP a b ms fs false)) = true := by
+  rw [intersectionP_false_eq]
+  by_cases he : a.1 = .empty
+  · simp only [he, true_or, if_true, ans_ok]
+    apply okI_empty a b ms fs strict h
+    intro p; rw [he, covX_empty]; simp
+  · cases hsp : sameParent a.2 b.2 with
+    | false =>
+      simp only [or_true, if_true, ans_ok]
+      apply okI_empty a b ms fs strict h
+      intro p; rw [active_eq, hsp]; rfl
+    | true =>
+      simp only [he, Bool.true_eq_false, or_self, if_false]
+      have hq' : ¬ (a.1 ≠ .empty ∧ b.1 = .empty ∧ ms = true) := by
+        rintro ⟨h1, h2, h3⟩
+        apply hq
+        refine ⟨h1, h2, h3, ?_⟩
+        have hb2 := hb.2.1 h2
+        rw [hb2, sameParent_nil_right] at hsp
+        simpa using hsp
+      obtain ⟨r, hr, hs⟩ := intersection_spec a.1 b.1 ha.1 hb.1 ms fs hq'
+      rw [hr]
+      simp only [bind, Except.bind, pure, Except.pure, ans_ok]
+      have hends := hs.ends_le
+      have hpar : sameParent (isectResultParent a b fs) a.2 = true := by
+        have h1 := sameParent_refl a.2
+        have h2 : sameParent b.2 a.2 = true := by rw [sameParent_symm]; exact hsp
+        unfold isectResultParent
+        split
+        · exact h2
+        · split
+          · exact h2
+          · exact h1
+        · exact h1
+      apply okI_some a b ms fs strict _ h
+      · apply resultOk_withPar r _ a.2 hs.wf ?_ hpar
+        intro n hn u hu
+        have hn' : parentSeqLen a.2 = some n := by
+          rw [← hn]; exact (sameParent_seqLen _ _ hpar).symm
+        have := (maxEndOf_le_iff (locationBlocks a.1) n).mpr (ha.2.2 n hn')
+        have := hends u hu
+        omega
+      · rw [withPar_fst]
+        simp only [endsWithin, List.all_eq_true, decide_eq_true_eq]
+        intro u hu
+        have := hends u hu
+        rw [hiOf_pair]
+        omega
+      · intro p
+        rw [withPar_fst, locationCovers_eq, hs.cov p, active_eq, hsp, Bool.true_and]
+      · rw [withPar_fst]
+        rcases hs.strand with h1 | h1
+        · simp [Spec.strandIs, h1]
+        · simp [Spec.strandIs, h1]
+      · rw [withPar_fst]
+        simp only [Spec.noEmptyBlock, List.all_eq_true, decide_eq_true_eq]
+        exact hs.pos
+
 end BioCantor.Proofs.Isect
+
+namespace BioCantor.Proofs
+open BioCantor BioCantor.Spec BioCantor.Model
+
+/-- C02-T2: intersection covers exactly the common positions (full spans with `full_span`), is on the receiver's
+    strand, well formed, inside the parent, without empty blocks; incompatible parents / strands under
+    match_strand give EmptyLocation -/
+theorem intersectionP_ok (a b : PLoc) (ha : WFP a) (hb : WFP b) (ms fs strict : Bool) (hq : ¬ EmptyArgQuirk a b ms) :
+    okIntersection a b ms fs strict (ans (intersectionP a b ms fs strict)) = true := by
+  cases strict with
+  | false => exact Isect.intersectionP_ok_aux a b ha hb ms fs false hq rfl
+  | true =>
+    cases hsp : sameParent a.2 b.2 with
+    | false =>
+      simp [okIntersection, intersectionP, requireParentsEq_eq, hsp]
+      rfl
+    | true =>
+      rw [Isect.intersectionP_strict_eq a b ms fs hsp]
+      exact Isect.intersectionP_ok_aux a b ha hb ms fs true hq (by simp [hsp])
+
+/-- C02-T2 (normal form): for operands that are not self-overlapping, and for the span variant, the result is in
+    normal form -/
+theorem intersectionP_normal (a b : PLoc) (ha : WFP a) (hb : WFP b) (ms fs strict : Bool) :
+    okIntersectionNormal a b fs (ans (intersectionP a b ms fs strict)) = true := by
+  have key : okIntersectionNormal a b fs (ans (intersectionP a b ms fs false)) = true := by
+    rw [Isect.intersectionP_false_eq]
+    by_cases h0 : a.1 = .empty ∨ sameParent a.2 b.2 = false
+    · simp only [h0, if_true, ans_ok, okIntersectionNormal, locationBlocks, normalBlocks]
+      simp
+    · simp only [h0, if_false]
+      cases hr : intersection a.1 b.1 ms fs with
+      | error e => rfl
+      | ok r =>
+        simp only [bind, Except.bind, pure, Except.pure, ans_ok, okIntersectionNormal, Isect.withPar_fst']
+        by_cases hc : (fs || (nonOverlapLoc a.1 && nonOverlapLoc b.1)) = true
+        · simp only [hc, if_true]
+          by_cases hbe : b.1 = .empty
+          · rw [hbe] at hr
+            rw [Isect.intersection_empty_arg a.1 ms fs r hr]
+            rfl
+          · obtain ⟨r', hr', hs⟩ := Isect.intersection_spec a.1 b.1 ha.1 hb.1 ms fs (fun h => hbe h.2.1)
+            rw [hr] at hr'
+            cases hr'
+            refine (hs.normal ?_).1
+            simp only [Bool.or_eq_true, Bool.and_eq_true] at hc
+            exact hc
+        · simp [hc]
+  cases strict with
+  | false => exact key
+  | true =>
+    cases hsp : sameParent a.2 b.2 with
+    | false =>
+      simp [okIntersectionNormal, intersectionP, requireParentsEq_eq, hsp]
+      rfl
+    | true =>
+      rw [Isect.intersectionP_strict_eq a b ms fs hsp]
+      exact key
+
+/-! ### the hypotheses are satisfiable by non-trivial inputs -/
+
+example :
+    let a : PLoc := (.compound ⟨[(0, 2), (2, 2), (3, 5)], .minus⟩, [(some "chrA", none, some ['A','C','G','T','A'])])
+    let b : PLoc := (.compound ⟨[(1, 4), (4, 5)], .plus⟩, [(some "chrA", none, some ['A','C','G','T','A'])])
+    WFP a ∧ WFP b ∧ ¬ EmptyArgQuirk a b true := by decide
+
+example :
+    let a : PLoc := (.single (1, 4) .plus, [])
+    let b : PLoc := (.empty, [])
+    WFP a ∧ WFP b ∧ ¬ EmptyArgQuirk a b false := by decide
+
+end BioCantor.Proofs
